@@ -91,7 +91,54 @@ func (c Cell) Name() string {
 	return fmt.Sprintf("%s|%v|minwait=%d|devs=%v|w=%d,%d%s|inst=%d|shots=%d", c.Mode, c.Program, c.MinWait, c.Devs, c.W1, c.W2, w3, c.Instances, c.Shots)
 }
 
+// namesYAML: two scenarios whose names and request names join to the same text (shop + cart_add,
+// shop_cart + add), headers that are called like the other rendered parts of a request (url, body), and
+// two variables captured from one response header through different modifier chains.
+const namesYAML = `variable_sources:
+  - name: users
+    type: file/csv
+    file: /users.csv
+    fields: [user_id, name]
+    ignore_first_line: true
+    delimiter: ','
+requests:
+  - name: cart_add
+    method: POST
+    uri: '/cart_add/{{.request.cart_add.preprocessor.uid}}'
+    headers: {X-Who: 'shop-{{.request.cart_add.preprocessor.uid}}', url: 'ref-{{.request.cart_add.preprocessor.uid}}', body: 'hb-{{.request.cart_add.preprocessor.uid}}'}
+    body: 'first {{.request.cart_add.preprocessor.uid}}'
+    preprocessor: {mapping: {uid: "source.users[next].user_id"}}
+  - name: add
+    method: PUT
+    uri: '/add/{{.request.add.preprocessor.uid}}'
+    headers: {X-Who: 'cart-{{.request.add.preprocessor.uid}}', url: 'other-{{.request.add.preprocessor.uid}}', body: 'ob-{{.request.add.preprocessor.uid}}'}
+    body: 'second {{.request.add.preprocessor.uid}}'
+    preprocessor: {mapping: {uid: "source.users[next].user_id"}}
+  - name: hdr
+    method: GET
+    uri: /hdr
+    postprocessors:
+      - type: var/header
+        mapping:
+          scheme: X-Auth|substr(0,6)|lower
+          token: x-auth|substr(7)
+          whole: X-Auth
+          rid: X-Request-ID|upper|replace(RID,r)
+  - name: use
+    method: GET
+    uri: '/use?s={{.request.hdr.postprocessor.scheme}}&t={{.request.hdr.postprocessor.token}}&r={{.request.hdr.postprocessor.rid}}'
+    headers: {X-Whole: '{{.request.hdr.postprocessor.whole}}'}
+scenarios:
+  - name: shop
+    requests: [cart_add, hdr, use]
+  - name: shop_cart
+    requests: [add]
+`
+
 func (c Cell) yaml() string {
+	if c.Mode == "names" {
+		return namesYAML
+	}
 	var sb strings.Builder
 	sb.WriteString(`variable_sources:
   - name: users
@@ -377,6 +424,105 @@ func (r *run) check(end, msg string) error {
 		return r.checkNext()
 	case "next2":
 		return r.checkNext2()
+	case "names":
+		return r.checkNames()
+	}
+	return nil
+}
+
+// checkNames: every request of every shot is rendered from its own scenario's and its own request's
+// templates (URI, each header, body), and every variable captured from a response header reaches the
+// later step, also when several variables come from one header.
+func (r *run) checkNames() error {
+	w, c := r.w, r.cell
+	if len(w.Shots) != c.Shots {
+		return fmt.Errorf("SHOTS: %d shots made, limit is %d", len(w.Shots), c.Shots)
+	}
+	scen := map[[2]int]string{} // (instance, shot of that instance) -> scenario
+	per := map[int]int{}
+	byInst := map[int][]ShotRec{}
+	for _, sh := range w.Shots {
+		byInst[sh.Inst] = append(byInst[sh.Inst], sh)
+	}
+	for inst, l := range byInst {
+		sort.SliceStable(l, func(i, j int) bool { return l[i].Start < l[j].Start })
+		for k, sh := range l {
+			scen[[2]int{inst, k + 1}] = sh.Scenario
+			per[inst]++
+		}
+	}
+	cnt := map[string]int{}
+	seq := map[[2]int][]Sent{}
+	for _, s := range w.Sent {
+		k := [2]int{s.Inst, s.Shot}
+		seq[k] = append(seq[k], s)
+	}
+	uidOf := func(uri, prefix string) (string, bool) {
+		if !strings.HasPrefix(uri, prefix) {
+			return "", false
+		}
+		u := strings.TrimPrefix(uri, prefix)
+		return u, len(u) == 2
+	}
+	for k, name := range scen {
+		cnt[name]++
+		l := seq[k]
+		switch name {
+		case "shop_cart":
+			if len(l) != 1 {
+				return fmt.Errorf("ORDER: a shot of scenario shop_cart [add] sent %d requests", len(l))
+			}
+			u, ok := uidOf(l[0].URI, "/add/")
+			if !ok || l[0].Method != "PUT" {
+				return fmt.Errorf("RENDER: scenario shop_cart, request add was sent as %s %s; its own definition is PUT /add/<uid>", l[0].Method, l[0].URI)
+			}
+			if g := l[0].Header.Get("X-Who"); g != "cart-"+u {
+				return fmt.Errorf("RENDER: scenario shop_cart, request add: header X-Who=%q, its own template gives %q", g, "cart-"+u)
+			}
+			if g := l[0].Header.Get("Url"); g != "other-"+u {
+				return fmt.Errorf("RENDER: scenario shop_cart, request add: header url=%q, its own template gives %q", g, "other-"+u)
+			}
+			if g := l[0].Header.Get("Body"); g != "ob-"+u {
+				return fmt.Errorf("RENDER: scenario shop_cart, request add: header body=%q, its own template gives %q", g, "ob-"+u)
+			}
+			if l[0].Body != "second "+u {
+				return fmt.Errorf("RENDER: scenario shop_cart, request add: body %q, its own template gives %q", l[0].Body, "second "+u)
+			}
+		case "shop":
+			if len(l) != 3 {
+				return fmt.Errorf("ORDER: a shot of scenario shop [cart_add, hdr, use] sent %d requests", len(l))
+			}
+			u, ok := uidOf(l[0].URI, "/cart_add/")
+			if !ok || l[0].Method != "POST" {
+				return fmt.Errorf("RENDER: scenario shop, request cart_add was sent as %s %s; its own definition is POST /cart_add/<uid>", l[0].Method, l[0].URI)
+			}
+			if g := l[0].Header.Get("X-Who"); g != "shop-"+u {
+				return fmt.Errorf("RENDER: scenario shop, request cart_add: header X-Who=%q, its own template gives %q", g, "shop-"+u)
+			}
+			if g := l[0].Header.Get("Url"); g != "ref-"+u {
+				return fmt.Errorf("RENDER: scenario shop, request cart_add: header url=%q, its own template gives %q", g, "ref-"+u)
+			}
+			if g := l[0].Header.Get("Body"); g != "hb-"+u {
+				return fmt.Errorf("RENDER: scenario shop, request cart_add: header body=%q, its own template gives %q", g, "hb-"+u)
+			}
+			if l[0].Body != "first "+u {
+				return fmt.Errorf("RENDER: scenario shop, request cart_add: body %q, its own template gives %q", l[0].Body, "first "+u)
+			}
+			if l[1].URI != "/hdr" {
+				return fmt.Errorf("ORDER: scenario shop, second request is %s", l[1].URI)
+			}
+			if want := "/use?s=bearer&t=abc123&r=r-1"; l[2].URI != want {
+				return fmt.Errorf("VARS: scenario shop, request use was sent as %s; the values captured from the answer's headers (X-Auth: Bearer abc123, X-Request-Id: rid-1) give %s", l[2].URI, want)
+			}
+			if g := l[2].Header.Get("X-Whole"); g != "Bearer abc123" {
+				return fmt.Errorf("VARS: scenario shop, request use: header X-Whole=%q, the captured header value is %q", g, "Bearer abc123")
+			}
+		default:
+			return fmt.Errorf("HARNESS: unknown scenario %q", name)
+		}
+	}
+	if d := cnt["shop"] - cnt["shop_cart"]; c.Shots%2 == 0 && d != 0 {
+		return fmt.Errorf("WEIGHTS: %d shots of two scenarios of equal weight: shop x%d, shop_cart x%d", c.Shots, cnt["shop"], cnt["shop_cart"])
 	}
 	return nil
 }
@@ -627,6 +773,12 @@ func allCells(thorough bool) []Cell {
 			for _, w3 := range ws {
 				out = append(out, Cell{Mode: "weights", W1: w1, W2: w2, Third: true, W3: w3, Instances: 1})
 			}
+		}
+	}
+	for _, shots := range []int{1, 2, 3, 4, 6} {
+		out = append(out, Cell{Mode: "names", Instances: 1, Shots: shots})
+		if shots > 1 {
+			out = append(out, Cell{Mode: "names", Instances: 2, Shots: shots, Bound: 1})
 		}
 	}
 	for _, shots := range []int{1, 2, 4, 7} {
